@@ -2,6 +2,9 @@ package sym
 
 import (
 	"fmt"
+	"os"
+	"sync/atomic"
+	"time"
 
 	"gosymx/smt"
 )
@@ -66,7 +69,76 @@ func (in *Interp) endPath(kind, msg string) {
 // re-executions of a shared prefix create identical names.
 func (in *Interp) fresh(label string, s smt.Sort) *smt.Term {
 	in.nvar++
-	return in.ctx.Var(fmt.Sprintf("v%d_%s", in.nvar, label), s)
+	v := in.ctx.Var(fmt.Sprintf("v%d_%s", in.nvar, label), s)
+	in.symVars = append(in.symVars, v)
+	return v
+}
+
+func (in *Interp) msol() *smt.Solver {
+	if in.lastSol != nil {
+		return in.lastSol
+	}
+	return in.sol
+}
+
+// ---- model-guided exploration ----
+// in.model, when non-nil, satisfies in.pc.  Evaluating a branch condition under it
+// yields one feasible side without a solver call; only the other side is queried.
+
+func (in *Interp) evalModel(t *smt.Term) (uint64, bool) {
+	if in.model == nil || in.W.Cfg.NoModelGuide {
+		return 0, false
+	}
+	if in.evaluator == nil {
+		in.evaluator = smt.NewEvaluator(in.model)
+	}
+	return in.evaluator.Eval(t)
+}
+
+func (in *Interp) setModel(m *smt.Model) {
+	in.model = m
+	in.evaluator = nil
+}
+
+// fetchModel reads the solver's current model (right after a Sat answer).
+func (in *Interp) fetchModel() *smt.Model {
+	var ts []*smt.Term
+	type arrReq struct {
+		v *smt.Term
+		n int
+	}
+	var arrs []arrReq
+	for _, v := range in.symVars {
+		if v.Sort.K == smt.KArr {
+			n := 48
+			arrs = append(arrs, arrReq{v, n})
+			for i := 0; i < n; i++ {
+				ts = append(ts, in.ctx.Select(v, in.ctx.Const(64, uint64(i))))
+			}
+		} else {
+			ts = append(ts, v)
+		}
+	}
+	vals, ok := in.msol().Values(ts)
+	if !ok {
+		return nil
+	}
+	m := smt.NewModel()
+	k := 0
+	for _, v := range in.symVars {
+		if v.Sort.K == smt.KArr {
+			b := make([]byte, 48)
+			for i := range b {
+				b[i] = byte(vals[k])
+				k++
+			}
+			m.Arrays[v.Name] = b
+		} else {
+			m.Scalars[v.Name] = vals[k]
+			k++
+		}
+	}
+	return m
 }
 
 func (in *Interp) addPC(t *smt.Term) {
@@ -76,8 +148,12 @@ func (in *Interp) addPC(t *smt.Term) {
 	in.pc = append(in.pc, t)
 }
 
-// syncSolver asserts pending path-condition conjuncts.
+// syncSolver (incremental mode) opens the per-path scope and asserts pending conjuncts.
 func (in *Interp) syncSolver() {
+	if in.modelScope {
+		in.sol.Pop()
+		in.modelScope = false
+	}
 	if !in.solverOpen {
 		in.sol.ResetScopes()
 		in.sol.Push()
@@ -89,17 +165,73 @@ func (in *Interp) syncSolver() {
 	}
 }
 
-func (in *Interp) check(extra *smt.Term) smt.Result {
-	if extra.IsFalse() {
-		return smt.Unsat
+// solve decides pc ∧ extra; after Sat the model stays readable (Values) until the
+// next solver operation.
+func (in *Interp) solve(extra ...*smt.Term) smt.Result {
+	var r smt.Result
+	if in.W.Cfg.OneShot {
+		ts := make([]*smt.Term, 0, len(in.pc)+len(extra))
+		ts = append(ts, in.pc...)
+		ts = append(ts, extra...)
+		r = in.sol.Solve(ts)
+		in.lastSol = in.sol
+	} else {
+		in.syncSolver()
+		in.sol.Push()
+		in.modelScope = true
+		for _, e := range extra {
+			in.sol.Assert(e)
+		}
+		r = in.sol.Check()
+		in.lastSol = in.sol
+		if r == smt.Unknown && in.sol2 != nil {
+			// second opinion from a clean solver state (z3's non-incremental pipeline)
+			ts := make([]*smt.Term, 0, len(in.pc)+len(extra))
+			ts = append(ts, in.pc...)
+			ts = append(ts, extra...)
+			r = in.sol2.Solve(ts)
+			in.lastSol = in.sol2
+			in.W.noteRescue(r)
+		}
 	}
-	in.syncSolver()
-	r := in.sol.CheckWith(extra)
 	if r == smt.Unknown {
 		in.W.noteUnknown(in)
 	}
 	return r
 }
+
+// check decides feasibility of pc ∧ extra.  In one-shot mode only the conjuncts of
+// pc that share variables (transitively) with extra are sent: pc is satisfiable by
+// construction, so the independent rest cannot change the answer.
+func (in *Interp) check(extra *smt.Term) smt.Result {
+	if extra.IsFalse() {
+		return smt.Unsat
+	}
+	if !in.W.Cfg.OneShot {
+		return in.solve(extra)
+	}
+	if in.sawUnknown || in.W.Cfg.NoSlice {
+		return in.solve(extra)
+	}
+	ts := in.ctx.Slice(in.pc, extra)
+	ts = append(ts, extra)
+	t0 := time.Now()
+	r := in.sol.Solve(ts)
+	in.lastSol = in.sol
+	if d := time.Since(t0); slowDir != "" && d > 300*time.Millisecond {
+		n := atomic.AddInt32(&slowN, 1)
+		if n < 40 {
+			os.WriteFile(fmt.Sprintf("%s/q%03d_%s_%dms.smt2", slowDir, n, r, d.Milliseconds()), []byte(smt.Script(ts, "")), 0o644)
+		}
+	}
+	if r == smt.Unknown {
+		in.W.noteUnknown(in)
+	}
+	return r
+}
+
+var slowDir = os.Getenv("GOSYMX_SLOWQ")
+var slowN int32
 
 func (in *Interp) record(d Decision) {
 	in.taken = append(in.taken, d)
@@ -115,11 +247,20 @@ func (in *Interp) nextReplay() Decision {
 	return d
 }
 
-func (in *Interp) pushSibling(d Decision) {
+func (in *Interp) pushSibling(d Decision, m *smt.Model) {
 	sib := make([]Decision, len(in.taken)+1)
 	copy(sib, in.taken)
 	sib[len(in.taken)] = d
-	in.W.push(sib)
+	in.W.push(WorkItem{Prefix: sib, Model: m})
+}
+
+// checkModel is check + model fetch on Sat.
+func (in *Interp) checkModel(extra *smt.Term) (smt.Result, *smt.Model) {
+	r := in.check(extra)
+	if r == smt.Sat {
+		return r, in.fetchModel()
+	}
+	return r, nil
 }
 
 // Branch decides a symbolic condition; both sides are explored when feasible.
@@ -140,23 +281,45 @@ func (in *Interp) Branch(c *smt.Term) bool {
 	if in.ndecisions > in.W.Cfg.MaxDecisions {
 		in.endPath("limit", "decision limit")
 	}
-	rt := in.check(c)
 	nc := in.ctx.Not(c)
-	rf := in.check(nc)
+	if v, ok := in.evalModel(c); ok {
+		// the model's side is feasible for free; query only the other one
+		if v == 1 {
+			r, m := in.checkModel(nc)
+			if r != smt.Unsat {
+				in.pushSibling(Decision{V: 0}, m)
+			}
+			in.record(Decision{V: 1})
+			in.addPC(c)
+			return true
+		}
+		r, m := in.checkModel(c)
+		if r != smt.Unsat {
+			in.pushSibling(Decision{V: 1}, m)
+		}
+		in.record(Decision{V: 0})
+		in.addPC(nc)
+		return false
+	}
+	rf, mf := in.checkModel(nc)
+	rt, mt := in.checkModel(c)
 	tOK, fOK := rt != smt.Unsat, rf != smt.Unsat
 	switch {
 	case tOK && fOK:
-		in.pushSibling(Decision{V: 0})
+		in.pushSibling(Decision{V: 0}, mf)
 		in.record(Decision{V: 1})
 		in.addPC(c)
+		in.setModel(mt)
 		return true
 	case tOK:
 		in.record(Decision{V: 1})
 		in.addPC(c)
+		in.setModel(mt)
 		return true
 	case fOK:
 		in.record(Decision{V: 0})
 		in.addPC(nc)
+		in.setModel(mf)
 		return false
 	}
 	in.endPath("infeasible", "both branch sides unsat")
@@ -172,7 +335,7 @@ func (in *Interp) Choose(n int) int {
 		return int(in.nextReplay().V)
 	}
 	for k := n - 1; k >= 1; k-- {
-		in.pushSibling(Decision{V: int64(k)})
+		in.pushSibling(Decision{V: int64(k)}, in.model)
 	}
 	in.record(Decision{V: 0})
 	return 0
@@ -201,31 +364,30 @@ func (in *Interp) Concretize(t *smt.Term) uint64 {
 		if in.ndecisions > in.W.Cfg.MaxDecisions {
 			in.endPath("limit", "decision limit")
 		}
-		in.syncSolver()
-		in.sol.Push()
-		r := in.sol.Check()
-		if r != smt.Sat {
-			in.sol.Pop()
-			if r == smt.Unknown {
-				in.W.noteUnknown(in)
-				in.endPath("unknown", "solver unknown while concretising")
-			}
-			in.endPath("infeasible", "no value left while concretising")
-		}
-		vals, ok := in.sol.Values([]*smt.Term{t})
-		in.sol.Pop()
+		v, ok := in.evalModel(t)
 		if !ok {
-			in.endPath("unknown", "cannot read model value")
+			r := in.solve()
+			if r != smt.Sat {
+				if r == smt.Unknown {
+					in.endPath("unknown", "solver unknown while concretising")
+				}
+				in.endPath("infeasible", "no value left while concretising")
+			}
+			vals, okv := in.msol().Values([]*smt.Term{t})
+			if !okv {
+				in.endPath("unknown", "cannot read model value")
+			}
+			v = vals[0]
+			in.setModel(in.fetchModel())
 		}
-		v := vals[0]
 		k := in.ctx.Const(t.Sort.W, v)
 		if t.Sort.K == smt.KBool {
 			k = in.ctx.BoolC(v != 0)
 		}
 		// is any other value feasible?
 		ne := in.ctx.Not(in.ctx.Eq(t, k))
-		if in.check(ne) != smt.Unsat {
-			in.pushSibling(Decision{V: int64(v), Neg: true})
+		if r, m := in.checkModel(ne); r != smt.Unsat {
+			in.pushSibling(Decision{V: int64(v), Neg: true}, m)
 		}
 		in.record(Decision{V: int64(v)})
 		in.addPC(in.ctx.Eq(t, k))
@@ -246,8 +408,12 @@ func (in *Interp) Assume(c *smt.Term) {
 		in.addPC(c)
 		return
 	}
-	if in.check(c) == smt.Unsat {
-		in.endPath("infeasible", "assume infeasible")
+	if v, ok := in.evalModel(c); !ok || v == 0 {
+		r, m := in.checkModel(c)
+		if r == smt.Unsat {
+			in.endPath("infeasible", "assume infeasible")
+		}
+		in.setModel(m)
 	}
 	in.record(Decision{V: 1})
 	in.addPC(c)
@@ -276,34 +442,26 @@ func (in *Interp) Assert(ok *smt.Term, kind, msg, site string) {
 	var fail bool
 	if ok.IsFalse() {
 		fail = true
-		in.syncSolver()
-		in.sol.Push()
-		r := in.sol.Check()
-		if r == smt.Sat {
+		if r := in.solve(); r == smt.Sat {
 			in.reportFailure(kind, msg, site)
-		} else if r == smt.Unknown {
-			in.W.noteUnknown(in)
 		}
-		in.sol.Pop()
 		in.record(Decision{V: 1})
 		in.endPath("assertfail", msg)
 	}
-	in.syncSolver()
-	in.sol.Push()
-	in.sol.Assert(bad)
-	r := in.sol.Check()
+	r := in.solve(bad)
 	if r == smt.Sat {
 		fail = true
 		in.reportFailure(kind, msg, site)
-	} else if r == smt.Unknown {
-		in.W.noteUnknown(in)
 	}
-	in.sol.Pop()
 	in.W.noteAssert(r)
 	if fail {
-		if in.check(ok) == smt.Unsat {
-			in.record(Decision{V: 1})
-			in.endPath("assertfail", msg)
+		if v, okv := in.evalModel(ok); !okv || v == 0 {
+			r, m := in.checkModel(ok)
+			if r == smt.Unsat {
+				in.record(Decision{V: 1})
+				in.endPath("assertfail", msg)
+			}
+			in.setModel(m)
 		}
 		in.record(Decision{V: 1})
 	} else {
@@ -335,7 +493,7 @@ func (in *Interp) modelInputs() []InputValue {
 			scal = append(scal, ip.Bytes...)
 		}
 	}
-	vals, ok := in.sol.Values(scal)
+	vals, ok := in.msol().Values(scal)
 	if !ok {
 		return nil
 	}
@@ -373,7 +531,7 @@ func (in *Interp) modelInputs() []InputValue {
 			for i := range sel {
 				sel[i] = in.ctx.Select(ip.Arr, in.ctx.Const(64, uint64(i)))
 			}
-			bv, ok := in.sol.Values(sel)
+			bv, ok := in.msol().Values(sel)
 			if ok {
 				b := make([]byte, m)
 				for i := range b {
@@ -408,7 +566,7 @@ func (in *Interp) evalObserved(v Val) string {
 		if x.IsConst() {
 			return show(x)
 		}
-		vals, ok := in.sol.Values([]*smt.Term{x})
+		vals, ok := in.msol().Values([]*smt.Term{x})
 		if ok {
 			return fmt.Sprint(vals[0])
 		}
@@ -417,7 +575,7 @@ func (in *Interp) evalObserved(v Val) string {
 		if x.B == nil {
 			return x.S
 		}
-		vals, ok := in.sol.Values(x.B)
+		vals, ok := in.msol().Values(x.B)
 		if ok {
 			b := make([]byte, len(vals))
 			for i := range b {
